@@ -4,8 +4,14 @@ CONSTANTS
   EnterOnFocusIn = FALSE
   StaleTarget = FALSE
   FastPath = FALSE
+  Reentrant = FALSE
+  LiveTarget = FALSE
+  BubbleSkipsLast = FALSE
+  ConsumeLeak = FALSE
+  DupSelf = FALSE
+  Answers = FALSE
   Depth = 4
-  Shapes = {"A", "B", "H", "P"}
+  Shapes = {"A", "B", "H", "P", "W"}
 SPECIFICATION Spec
 INVARIANTS Conforms RouteSane ChainSane HoverClosed
 CHECK_DEADLOCK FALSE
